@@ -34,7 +34,8 @@ def gen_cases(ck, et, n):
         if k < 0.35: return rng.randint(-S, S)
         if k < 0.65: return rng.choice([-1, 1]) * (et + rng.randint(-3, 3) * rng.choice([1, 1000, S // 10]))
         if k < 0.85: return rng.choice([-1, 1]) * rng.randint(et // 2, 2 * et)
-        return rng.choice([-1, 1]) * rng.randint(60 * S, 7200 * S)
+        if k < 0.96: return rng.choice([-1, 1]) * rng.randint(60 * S, 7200 * S)
+        return "extreme"   # further away than time.Duration can express (Sub saturates): see fixed finding N5
     def delay():
         k = rng.random()
         if k < 0.2: return 0
@@ -54,6 +55,11 @@ def gen_cases(ck, et, n):
                 th = rng.choice([want - d1, -want - d1])
             t = st + d1
             en = t + d2
+            if th == "extreme":
+                # a result close to the ends of what UnixNano can express, more than 292 years from the local clock
+                res = rng.choice([-(2 ** 63) + rng.randint(1000, 10 ** 15), -8 * 10 ** 18 - rng.randint(0, 10 ** 17)])
+                peers.append({"st": st, "en": en, "res": res, "theta": res - t})
+                continue
             if rng.random() < 0.2:
                 peers.append({"st": st, "en": en, "res": None, "theta": None})
             else:
@@ -81,6 +87,15 @@ def run_go(lines):
     if rc != 0 or not os.path.exists(outp):
         return None, out
     return open(outp).read().split("\n")[:-1], out
+
+
+def norm_line(l):
+    """worstCaseDrift of the repaired code reports MaxInt64 when the difference overflows; the model computes in Z"""
+    if not l:
+        return l
+    def f(m):
+        return "drifts=" + ",".join("huge" if x not in ("-",) and (int(x) >= 2 ** 62 or int(x) < 0) else x for x in m.group(1).split(","))
+    return re.sub(r"drifts=(\S+)", f, l)
 
 
 def parse_out(l):
@@ -213,7 +228,7 @@ def run(ck, replay):
             nontriv.add(lines[i])
         if g:
             dist[g["decision"]] = dist.get(g["decision"], 0) + 1
-        if i >= len(glines) or i >= len(mlines) or glines[i] != mlines[i]:
+        if i >= len(glines) or i >= len(mlines) or norm_line(glines[i]) != norm_line(mlines[i]):
             mism.append(i)
         why = monitor(c, g, et)
         if why:
